@@ -46,17 +46,22 @@ def item_prune(repo, out):
     if len(whiles) != 2:
         raise TranslateError('_prune_chunks: expected two while loops, found %d' % len(whiles))
     w1, w2 = whiles
-    for w, guard, stmts, nm in (
-            (w1, 'start_chunk < len(chunks[axis]) - 1',
+    # guards: the repaired code keeps the last remaining chunk; the original guards are still recognised (so that an
+    # unrepaired tree breaks only C06's own obligation gen_prune_keep_one = true, not the whole translator)
+    keep_one = []
+    for w, guards, stmts, nm in (
+            (w1, {'start_chunk < len(chunks[axis]) - 1': True, 'start_chunk < len(chunks[axis])': False},
              ['c = chunks[axis][start_chunk]', 'offset[axis] += c', 'start -= c', 'stop -= c', 'shape[axis] -= c',
               'start_chunk += 1'], 'first'),
-            (w2, 'stop_chunk > start_chunk + 1',
+            (w2, {'stop_chunk > start_chunk + 1': True, 'stop_chunk > start_chunk': False},
              ['stop_chunk -= 1', 'c = chunks[axis][stop_chunk]', 'shape[axis] -= c'], 'second')):
         t = w.test
         if not (isinstance(t, ast.BoolOp) and isinstance(t.op, ast.And) and len(t.values) == 2):
             raise TranslateError('_prune_chunks: %s while: condition is not `guard and test`' % nm)
-        if ast.unparse(t.values[0]) != guard:
-            raise TranslateError('_prune_chunks: %s while: guard is %s' % (nm, ast.unparse(t.values[0])))
+        g = ast.unparse(t.values[0])
+        if g not in guards:
+            raise TranslateError('_prune_chunks: %s while: guard is %s' % (nm, g))
+        keep_one.append(guards[g])
         got = [ast.unparse(s) for s in w.body]
         if got != stmts or w.orelse:
             raise TranslateError('_prune_chunks: %s while: body is %s' % (nm, got))
@@ -71,6 +76,8 @@ def item_prune(repo, out):
     if head != want_head:
         raise TranslateError('_prune_chunks: statements before the loops are %s' % head)
     out.append('(* chunkstore._prune_chunks: while more than one chunk is left, the chunk c under test is dropped if ... *)')
+    out.append('Definition gen_prune_front_keeps_last : bool := %s.' % ('true' if keep_one[0] else 'false'))
+    out.append('Definition gen_prune_back_keeps_last : bool := %s.' % ('true' if keep_one[1] else 'false'))
     out.append('Definition gen_prune_front_drop (c start : Z) : bool := %s.' % _cond(w1.test.values[1], 'first while'))
     out.append('Definition gen_prune_back_drop (c shape stop : Z) : bool := %s.' % _cond(w2.test.values[1], 'second while'))
 
